@@ -974,6 +974,26 @@ func genConds() string {
 			var keep []branch
 			for _, br := range branches {
 				uses := false
+				inInit := false
+				if br.init != nil {
+					// `if code := int(assert); code < 1 || 6 < code {`: the value is looked at through a local of the if's own
+					ast.Inspect(br.init, func(m ast.Node) bool {
+						if id, ok := m.(*ast.Ident); ok {
+							if obj, ok := info.Uses[id].(*types.Var); ok {
+								if nt, ok := obj.Type().(*types.Named); ok && nt.Obj().Name() == tn {
+									if as, ok := br.init.(*ast.AssignStmt); ok && len(as.Lhs) == 1 {
+										uses, inInit = true, true
+										if x.rename == nil {
+											x.rename = map[*types.Var]string{}
+										}
+										x.rename[obj] = usesCanon[tn]
+									}
+								}
+							}
+						}
+						return true
+					})
+				}
 				ast.Inspect(br.cond, func(m ast.Node) bool {
 					if id, ok := m.(*ast.Ident); ok {
 						if obj, ok := info.Uses[id].(*types.Var); ok {
@@ -1007,7 +1027,7 @@ func genConds() string {
 							parts = append(parts, a)
 						}
 					}
-					if len(parts) == 1 {
+					if len(parts) == 1 && !inInit {
 						br.cond = parts[0]
 					}
 					if as, ok := br.init.(*ast.AssignStmt); ok && len(as.Lhs) != 1 {
